@@ -87,7 +87,7 @@ def frame_diff(got, exp, check_index=True):
 
 
 def plan(seed, tier):
-    n = 32 if tier == "quick" else 480
+    n = 32 if tier == "quick" else 1600
     cases = [{"class": "readers", "index": i, "reps": 10, "cost": 2} for i in range(n)]
     cases += [{"class": "writers", "index": i, "reps": 16, "cost": 2} for i in range(n)]
     cases.append({"class": "probe", "cost": 1})
